@@ -500,6 +500,51 @@ def gen_tjc(rng, cases, P):
     cases.append(("tjc %d %d %d %d %d | %s" % (prec, W, H, pf, rng.below(1 << 30), " ".join(sets)), "tjc", None))
 
 
+
+# ------------------------------------------------------------- programs: several images on one object
+def gen_seq(rng, cases):
+    """gray -> YCbCr -> CMYK/YCCK -> 5..10-component JCS_UNKNOWN and back, progressive via jpeg_simple_progression
+    or sequential, on ONE jpeg_compress_struct"""
+    n = rng.range(2, 5)
+    imgs = []
+    kinds = rng.shuffle([0, 1, 2, 3, 4, 4, 5])
+    # most sequences start with a short script (gray 6 / YCbCr 10 scans) and then need a longer one
+    if rng.chance(2, 3):
+        kinds = [rng.choice([0, 1])] + [rng.choice([2, 3, 4])] + kinds
+    for cs in kinds[:n]:
+        nc = rng.choice([1, 2, 3, 4, 5, 6, 7, 10]) if cs == 4 else 0
+        prog = 1 if rng.chance(4, 5) else 0
+        imgs.append("%d %d %d %d %d %d %d" % (cs, nc, prog, rng.below(2), 8 if rng.chance(4, 5) else 12,
+                                              rng.choice([1, 8, 16, 17, 48]), rng.choice([1, 8, 9, 16])))
+    filler = rng.choice([0, 0, 1600, 4000])
+    cases.append(("seq %d | %s" % (filler, " ; ".join(imgs)), "seq", {"nscans": None}))
+
+
+def gen_tjseq(rng, cases, P):
+    imgs = []
+    for _ in range(rng.range(2, 4)):
+        pf = rng.choice([6, 0, 11, 7, 6, 11])          # GRAY RGB CMYK RGBA
+        sets = ["%d=%d" % (P["TJPARAM_QUALITY"], rng.choice([1, 50, 100])), "%d=%d" % (P["TJPARAM_SUBSAMP"], rng.choice([0, 1, 2, 3])),
+                "%d=%d" % (P["TJPARAM_PROGRESSIVE"], 1 if rng.chance(4, 5) else 0), "%d=%d" % (P["TJPARAM_OPTIMIZE"], rng.below(2)),
+                "%d=%d" % (P["TJPARAM_ARITHMETIC"], 1 if rng.chance(1, 6) else 0)]
+        if rng.chance(1, 3):
+            sets.append("%d=%d" % (P["TJPARAM_COLORSPACE"], rng.choice([0, 1, 2, 3, 4])))
+        imgs.append("8 %d %d %d %d %s" % (rng.choice([1, 16, 33]), rng.choice([1, 16, 17]), pf, rng.below(1 << 30), " ".join(sets)))
+    cases.append(("tjseq | " + " ; ".join(imgs), "tjseq", None))
+
+
+def gen_ll(rng, cases):
+    """lossless compression of samples engineered to hit every difference category (incl. 16 at 16 bits)"""
+    api = rng.below(2)
+    prec = rng.choice([16, 16, 16, 12, 8, 2, 3, 9, 13, 15])
+    psv = rng.range(1, 7) if rng.chance(9, 10) else rng.choice([0, 8])
+    pt = 0 if rng.chance(2, 3) else rng.choice([1, prec - 1, prec, 15])
+    nc = rng.choice([1, 1, 3])
+    W, H = rng.choice([1, 2, 8, 33, 64]), rng.choice([1, 2, 9, 16])
+    ri = rng.choice([0, 0, 1, 3])
+    cases.append(("ll %d %d %d %d %d %d %d %d %d %d" % (api, prec, psv, pt, W, H, nc, ri, rng.below(9), rng.below(1 << 30)), "ll", None))
+
+
 # ------------------------------------------------------------------------------ running
 def run_harness(ctx, exe, cases, fl):
     """run all case lines; a missing output line = crash/hang on that case: record, resume after it"""
@@ -546,6 +591,8 @@ def oracle_verdict(kind, meta, line):
     mpart, opart = line.split(" # ", 1)
     if mpart.startswith("<crash>"):
         return None        # already reported
+    if kind in ("seq", "corpus-seq"):
+        mpart = "seq"          # per-image errors do not excuse the other images: the harness reports the first bad image
     rejected = mpart.startswith("err ") or " ; err " in mpart or mpart.startswith("rej") or mpart.startswith("acc") or "tjerr" in opart
     if rejected or opart.strip() == "-":
         return None
@@ -556,6 +603,8 @@ def oracle_verdict(kind, meta, line):
         return "stream does not end with EOI"
     if f.get("warn") != "0":
         return "own decompressor reports %s warning(s)" % f.get("warn")
+    if f.get("exact") == "0":
+        return "lossless stream does not decode to the samples that were compressed"
     exp, dec = f.get("exp", "").split("x"), f.get("dec", "").split("x")
     if len(exp) == 3 and len(dec) == 3:
         if exp[:2] != dec[:2] or (exp[2] != "0" and exp[2] != dec[2]):
@@ -572,6 +621,8 @@ def sig_of(tag, kind, bad):
         return "restart-interval-gt-65535"
     if kind == "blk-missing" or (tag or "").startswith("huff-missing-code"):
         return "huff-missing-code"
+    if kind in ("ll", "corpus-ll"):
+        return "lossless-bad-output:" + bad[:40]
     return "bad-output:%s:%s" % (tag or kind, bad[:40])
 
 
@@ -626,6 +677,8 @@ def run(ctx):
         tjset_cases(rng, cases, rows)
         for _ in range(ctx.n(150, 3000)):
             gen_tjc(rng, cases, P)
+        for _ in range(ctx.n(60, 1500)):
+            gen_tjseq(rng, cases, P)
     for _ in range(ctx.n(1300, 40000)):
         gen_setup(rng, cases)
     for _ in range(ctx.n(500, 15000)):
@@ -634,6 +687,10 @@ def run(ctx):
         gen_coef(rng, cases)
     for _ in range(ctx.n(150, 4000)):
         gen_qt(rng, cases)
+    for _ in range(ctx.n(200, 5000)):
+        gen_seq(rng, cases)
+    for _ in range(ctx.n(300, 8000)):
+        gen_ll(rng, cases)
     return run_cases(ctx, cases, exes, drv, flavours)
 
 
